@@ -1,6 +1,7 @@
 package main
 
 import (
+	"github.com/mlange-42/arche/generic"
 	"encoding/json"
 	"fmt"
 	"reflect"
@@ -202,6 +203,7 @@ func (x *World) addIssued(r *result, e ecs.Entity) {
 // Exec executes one symbolic operation and returns the trace line.
 func (x *World) Exec(i int, op Op) map[string]interface{} {
 	w := x.w
+	x.ensureLate(op)
 	x.events = x.events[:0]
 	args := map[string]interface{}{}
 	line := map[string]interface{}{"i": i, "w": op.W, "op": op.Op, "api": op.Api, "args": args,
@@ -697,6 +699,32 @@ func (x *World) Exec(i int, op Op) map[string]interface{} {
 			}
 			delete(x.resVals, op.R)
 		})
+	case "ResLazy":
+		// first by-type lookup of a resource type the world does not know yet: registers it (in any lock state),
+		// the resource itself is absent. ret: -1 = absent as it must be, 1 = something was there
+		args["r"] = op.R
+		res = guard(func(r *result) {
+			x.lazyRes++
+			r.ret = -1
+			present := false
+			switch op.R {
+			case 0:
+				present = lazyRes[resL0](w, op.Api)
+			case 1:
+				present = lazyRes[resL1](w, op.Api)
+			case 2:
+				present = lazyRes[resL2](w, op.Api)
+			case 3:
+				present = lazyRes[resL3](w, op.Api)
+			case 4:
+				present = lazyRes[resL4](w, op.Api)
+			default:
+				present = lazyRes[resL5](w, op.Api)
+			}
+			if present {
+				r.ret = 1
+			}
+		})
 	case "ResGet":
 		// ret: token of the returned value, -1 for nil; same: the exact pointer that was added
 		args["r"] = op.R
@@ -1003,4 +1031,18 @@ func (x *World) gcCheck() map[string]interface{} {
 	x.pendingPrev = pendingNow
 	return map[string]interface{}{"created": created, "finalized": finalized, "referenced": len(referenced),
 		"pending": len(pendingNow), "leaked": leaked, "rawPtrCopies": int(ecs.VerifRawPtrCopies.Load())}
+}
+
+// lazyRes looks a resource type up by type through one of the three typed entry points.
+func lazyRes[T any](w *ecs.World, api string) bool {
+	switch api {
+	case "ecs.ResourceID":
+		id := ecs.ResourceID[T](w)
+		return w.Resources().Has(id)
+	case "generic.NewResource":
+		g := generic.NewResource[T](w)
+		return g.Has() || g.Get() != nil
+	default:
+		return ecs.GetResource[T](w) != nil
+	}
 }
